@@ -521,7 +521,7 @@ theorem drainDials_acnt_eq (p : Peer) (s : State) (acts : List PAction) (outs : 
     split
     · rw [ih]
       unfold acnt
-      simp only [List.countP_append, List.countP_singleton, List.countP_cons]
+      simp only [List.countP_append, List.countP_cons]
       by_cases hq : a.q = q <;> simp [hq] <;> omega
     · simp only [List.countP_cons]
       have := ih { s with engine := regRespDone (regSendFail s.engine a.q p) a.q p } outs.tail
@@ -606,5 +606,443 @@ theorem LInv.established {s : State} (h : LInv s) (p : Peer) (outs : List Bool) 
         · intro f hf
           rw [hfields.2.1, hfu1] at hf
           exact hf
+
+
+/-! ## `on_outbound_substream` -/
+
+/-- A pending substream action becomes an executor future. -/
+theorem cnt_move {s s' : State} (R : Peer × Sid × PAction → Bool) (x : Peer × Sid × PAction) (k : FKind)
+    (hx : x ∈ s.actions) (hR : R x = true) (hd : s'.dials = s.dials)
+    (ha : s'.actions = s.actions.filter (fun y => !R y)) (hf : s'.futs = s.futs ++ [⟨x.1, x.2.2.q, k⟩])
+    (q : Qid) (p : Peer) : cnt s' q p ≤ cnt s q p := by
+  unfold cnt dcnt acnt fcnt
+  rw [hd, ha, hf, List.countP_append, List.countP_singleton]
+  have hle : (s.actions.filter (fun y => !R y)).countP (fun a => a.2.2.q == q && a.1 == p) ≤
+      s.actions.countP (fun a => a.2.2.q == q && a.1 == p) := (List.filter_sublist).countP_le
+  split
+  · rename_i hc
+    have := countP_filter_not_lt s.actions (fun a => a.2.2.q == q && a.1 == p) R x hx (by simpa using hc) hR
+    omega
+  · omega
+
+theorem cnt_drop {s s' : State} (hd : s'.dials = s.dials) (ha : s'.actions.Sublist s.actions) (hf : s'.futs = s.futs)
+    (q : Qid) (p : Peer) : cnt s' q p ≤ cnt s q p := by
+  unfold cnt dcnt acnt fcnt
+  rw [hd, hf]
+  have := ha.countP_le (p := fun a => a.2.2.q == q && a.1 == p)
+  omega
+
+theorem LInv.subOpened {s : State} (h : LInv s) (hN : (ids s.engine).Nodup) (sid : Sid) : LInv (subOpened s sid).1 := by
+  have drop : ∀ s' : State, s'.engine = s.engine → s'.nextQid = s.nextQid → s'.dials = s.dials →
+      s'.actions.Sublist s.actions → s'.futs = s.futs → LInv s' := by
+    intro s' he hn hd ha hf
+    exact h.preserve_drop (fun _ _ => False) (he ▸ .refl _) hn (cnt_drop hd ha hf) (fun _ _ hc => hc.elim)
+      (fun _ hx => hf ▸ hx)
+  unfold Coordinator.subOpened
+  split
+  · exact h
+  · rename_i sid0 p hfind
+    simp only []
+    split
+    · cases hact : actionAt { s with opening := s.opening.filter (fun o => o.1 != sid),
+                                     pendingSubs := s.pendingSubs.filter (fun x => x.1 != sid) } p sid with
+      | none => exact drop _ rfl rfl rfl (List.Sublist.refl _) rfl
+      | some a =>
+        simp only []
+        -- the action found
+        obtain ⟨x, hx, hRx, hxa⟩ : ∃ x ∈ s.actions, (x.1 == p && x.2.1 == sid) = true ∧ x.2.2 = a := by
+          unfold actionAt at hact
+          simp only [] at hact
+          cases hfa : s.actions.find? (fun a => a.1 == p && a.2.1 == sid) with
+          | none => rw [hfa] at hact; simp at hact
+          | some x =>
+            rw [hfa] at hact
+            exact ⟨x, List.mem_of_find?_eq_some hfa, by simpa using List.find?_some hfa, by simpa using hact⟩
+        have hx1 : x.1 = p := by simpa using ((Bool.and_eq_true _ _).mp hRx).1
+        have moved : ∀ (k : FKind) (s' : State), s'.engine = s.engine → s'.nextQid = s.nextQid → s'.dials = s.dials →
+            s'.actions = s.actions.filter (fun y => !(y.1 == p && y.2.1 == sid)) →
+            s'.futs = s.futs ++ [⟨p, a.q, k⟩] →
+            (k = .reqResp → nextPeerAction s.engine a.q p = true) → LInv s' := by
+          intro k s' he hn hd ha hf hk
+          refine h.preserve_env (fun _ _ => False) (he ▸ .refl _) hn
+            (cnt_move (fun y => y.1 == p && y.2.1 == sid) x k hx hRx hd ha (by rw [hf, hx1, hxa]))
+            (fun _ _ hc => hc.elim) ?_
+          intro x' hx' hlk p0 hfut
+          rw [hf] at hfut
+          rcases List.mem_append.mp hfut with hfut | hfut
+          · exact hfut
+          · exfalso
+            simp only [List.mem_singleton, Fut.mk.injEq] at hfut
+            obtain ⟨_, hq, hkk⟩ := hfut
+            have hnp := hk hkk.symm
+            rw [he] at hx'
+            have hfq := findQ_of_mem hN hx'
+            unfold nextPeerAction at hnp
+            rw [← hq, hfq] at hnp
+            obtain ⟨xi, xk, xs⟩ := x'
+            cases xs with
+            | lookup => simp [QState.isLookup] at hlk
+            | tracker b t => simp at hnp
+        cases hk : a.kind with
+        | findNode =>
+          simp only []
+          split
+          · rename_i hnp
+            exact moved .reqResp _ rfl rfl rfl rfl rfl (fun _ => hnp)
+          · exact drop _ rfl rfl rfl List.filter_sublist rfl
+        | putValue =>
+          simp only []
+          exact moved .putEat _ rfl rfl rfl rfl rfl (fun hc => by cases hc)
+        | addProvider =>
+          simp only []
+          exact moved .sendMsg _ rfl rfl rfl rfl rfl (fun hc => by cases hc)
+    · exact drop _ rfl rfl rfl (List.Sublist.refl _) rfl
+
+
+/-! ## User commands and engine actions -/
+
+theorem cnt_congr {s s' : State} (hd : s'.dials = s.dials) (ha : s'.actions = s.actions) (hf : s'.futs = s.futs)
+    (q : Qid) (p : Peer) : cnt s' q p = cnt s q p := by
+  unfold cnt dcnt acnt fcnt
+  rw [hd, ha, hf]
+
+/-- Queries only leave the engine, nothing else changes (but ledgers and the query-id counter). -/
+theorem LInv.subEngine {s s' : State} (h : LInv s) (he : ∀ x ∈ s'.engine, x ∈ s.engine)
+    (hn : s.nextQid ≤ s'.nextQid) (hd : s'.dials = s.dials) (ha : s'.actions = s.actions)
+    (hf : s'.futs = s.futs) : LInv s' := by
+  refine ⟨?_, ?_, ?_⟩
+  · intro q p hq
+    rw [cnt_congr hd ha hf]
+    exact h.fresh q p (Nat.le_trans hn hq)
+  · intro x hx hl p
+    rw [cnt_congr hd ha hf]
+    exact h.one x (he x hx) hl p
+  · intro x hx hl p hp
+    rw [hf]
+    exact h.noReq x (he x hx) hl p hp
+
+theorem LInv.startLookup {s : State} (h : LInv s) (kind : QKind) (key : Nat) (quorum : Quorum) :
+    LInv (startLookup s kind key quorum) := by
+  unfold Coordinator.startLookup
+  refine ⟨?_, ?_, ?_⟩
+  · intro q p hq
+    show cnt s q p = 0
+    exact h.fresh q p (Nat.le_of_succ_le hq)
+  · intro x hx hl p
+    show cnt s x.id p ≤ _
+    rcases List.mem_append.mp hx with hx | hx
+    · exact h.one x hx hl p
+    · simp only [List.mem_singleton] at hx
+      subst hx
+      rw [h.fresh _ p (Nat.le_refl _)]
+      exact Nat.zero_le _
+  · intro x hx hl p hp
+    rcases List.mem_append.mp hx with hx | hx
+    · exact h.noReq x hx hl p hp
+    · simp only [List.mem_singleton] at hx
+      subst hx
+      simp [QState.isLookup] at hl
+
+theorem LInv.command {s : State} (h : LInv s) (c : Cmd) : LInv (command s c) := by
+  cases c <;> simp only [Coordinator.command]
+  · exact h.startLookup _ _ _
+  · apply LInv.startLookup
+    exact h.subEngine (fun _ hx => hx) (Nat.le_refl _) rfl rfl rfl
+  · exact h.startLookup _ _ _
+  · split
+    · exact h.subEngine (fun _ hx => hx) (Nat.le_succ _) rfl rfl rfl
+    · exact h.startLookup _ _ _
+  · exact h.startLookup _ _ _
+  · exact h.startLookup _ _ _
+
+theorem cnt_openSub (s : State) (p : Peer) (a : PAction) (q' : Qid) (p' : Peer) :
+    cnt (openSub s p a) q' p' = cnt s q' p' + if (a.q = q' ∧ p = p') then 1 else 0 := by
+  unfold cnt dcnt acnt fcnt openSub
+  simp only [List.countP_append, List.countP_singleton, Bool.and_eq_true, beq_iff_eq]
+  omega
+
+theorem cnt_osd (s : State) (p : Peer) (a : PAction) (o : OsdIn) (q' : Qid) (p' : Peer) :
+    cnt (osd s p a o).1 q' p' = cnt s q' p' + if ((osd s p a o).2 = true ∧ a.q = q' ∧ p = p') then 1 else 0 := by
+  unfold osd
+  split
+  · rw [cnt_openSub]; simp
+  · split
+    · unfold cnt dcnt acnt fcnt
+      simp only [List.countP_append, List.countP_singleton, Bool.and_eq_true, beq_iff_eq, true_and]
+      omega
+    · split
+      · rw [cnt_openSub]; simp
+      · simp
+    · simp
+
+theorem osd_futs (s : State) (p : Peer) (a : PAction) (o : OsdIn) : (osd s p a o).1.futs = s.futs := by
+  unfold osd openSub
+  split
+  · rfl
+  · split
+    · rfl
+    · split <;> rfl
+    · rfl
+
+theorem fanOut_futs (k : AKind) (q : Qid) (s : State) (ps : List Peer) (outs : List OsdIn) :
+    (fanOut k q s ps outs).1.futs = s.futs := by
+  induction ps generalizing s outs with
+  | nil => rfl
+  | cons p ps ih => simp only [fanOut]; rw [ih, osd_futs]
+
+theorem cnt_fanOut_ne (k : AKind) (q : Qid) (s : State) (ps : List Peer) (outs : List OsdIn) (q' : Qid) (p' : Peer)
+    (hq : q ≠ q') : cnt (fanOut k q s ps outs).1 q' p' = cnt s q' p' := by
+  induction ps generalizing s outs with
+  | nil => rfl
+  | cons p ps ih =>
+    simp only [fanOut]
+    rw [ih, cnt_osd]
+    simp [hq]
+
+theorem ite_le_ite_of_imp {a b : Prop} [Decidable a] [Decidable b] (h : a → b) :
+    (if a then 1 else 0) ≤ (if b then 1 else 0 : Nat) := by
+  by_cases ha : a
+  · rw [if_pos ha, if_pos (h ha)]; exact Nat.le_refl _
+  · rw [if_neg ha]; exact Nat.zero_le _
+
+theorem LInv.engineStep {s s' : State} (h : LInv s) (hL : Ledger s) {act : EAct} {outs : List OsdIn}
+    (hstep : engineStep s act outs = some s') : LInv s' := by
+  unfold Coordinator.engineStep at hstep
+  cases act with
+  | send q p =>
+    simp only at hstep
+    split at hstep
+    · rename_i qi key kind quorum ps hfq
+      split at hstep
+      · exact absurd hstep (by simp)
+      · rename_i hguard
+        injection hstep with hstep
+        subst hstep
+        have hx0 := findQ_mem hfq
+        have hqi : qi = q := hx0.2
+        subst hqi
+        have hpps : p ∉ ps := fun hc => hguard (.inr hc)
+        have hqlt : (qi : Nat) < s.nextQid := hL.idsLt qi (List.mem_map.mpr ⟨_, hx0.1, rfl⟩)
+        have hcnt0 : cnt s qi p = 0 := by
+          have := h.one _ hx0.1 rfl p
+          simp [QState.pending, hpps] at this
+          omega
+        generalize hE1 : updQ s.engine qi (fun _ => QState.lookup kind quorum (ps ++ [p])) = E1
+        generalize ho : outs.headD default = o
+        -- the state after `open_substream_or_dial`
+        have hcnt : ∀ q' p', cnt (sendMessage { s with engine := E1 } qi p o) q' p' =
+            cnt s q' p' + if ((osd { s with engine := E1 } p ⟨.findNode, qi⟩ o).2 = true ∧ qi = q' ∧ p = p') then 1 else 0 := by
+          intro q' p'
+          have := cnt_osd { s with engine := E1 } p ⟨.findNode, qi⟩ o q' p'
+          unfold sendMessage
+          split
+          · exact this
+          · exact this
+        have hfuts : (sendMessage { s with engine := E1 } qi p o).futs = s.futs := by
+          unfold sendMessage
+          split
+          · exact osd_futs ..
+          · exact osd_futs { s with engine := E1 } p ⟨.findNode, qi⟩ o
+        have hnq : (sendMessage { s with engine := E1 } qi p o).nextQid = s.nextQid :=
+          (sendMessage_same { s with engine := E1 } qi p o s ⟨rfl, rfl, rfl, rfl, rfl⟩).nextQid
+        have hsh : ShrT (fun q0 p0 => ¬ (osd { s with engine := E1 } p ⟨.findNode, qi⟩ o).2 = true ∧ q0 = qi ∧ p0 = p)
+            E1 (sendMessage { s with engine := E1 } qi p o).engine := by
+          unfold sendMessage
+          split
+          · rw [osd_engine]; exact .refl _
+          · rename_i hok
+            simp only [osd_engine]
+            exact ShrT.bothFail _ _ _ ⟨hok, rfl, rfl⟩
+        -- queries of `E1`
+        have hE1mem : ∀ x1 ∈ E1, ∃ x ∈ s.engine, x1.id = x.id ∧
+            ((x.id ≠ qi ∧ x1.st = x.st) ∨ (x.id = qi ∧ x1.st = .lookup kind quorum (ps ++ [p]))) := by
+          intro x1 hx1
+          rw [← hE1] at hx1
+          obtain ⟨x, hx, hid, _, hst⟩ := mem_updQ hx1
+          exact ⟨x, hx, hid, hst⟩
+        refine ⟨?_, ?_, ?_⟩
+        · intro q' p' hq'
+          have hq'' : s.nextQid ≤ q' := hnq ▸ hq'
+          rw [hcnt, h.fresh q' p' hq'']
+          have : qi ≠ q' := fun hc => by subst hc; exact Nat.lt_irrefl _ (Nat.lt_of_lt_of_le hqlt hq'')
+          simp [this]
+        · intro x' hx' hlk p0
+          obtain ⟨x1, hx1, hid1, hl1, hsub1, hsup1⟩ := hsh.lookups x' hx' hlk
+          obtain ⟨x, hx, hid, hst⟩ := hE1mem x1 hx1
+          rw [hcnt, ← hid1, hid]
+          rcases hst with ⟨hne, hst⟩ | ⟨heq, hst⟩
+          · have hno : ¬ ((osd { s with engine := E1 } p ⟨.findNode, qi⟩ o).2 = true ∧ qi = x.id ∧ p = p0) :=
+              fun hc => hne hc.2.1.symm
+            rw [if_neg hno, Nat.add_zero]
+            refine Nat.le_trans (h.one x hx (hst ▸ hl1) p0) (ite_le_ite_of_imp ?_)
+            intro hp0
+            rcases hsup1 p0 (hst ▸ hp0) with hc | ⟨_, hc, _⟩
+            · exact hc
+            · exact absurd (hid.symm.trans hc) hne
+          · by_cases hp0 : p0 = p
+            · subst hp0
+              rw [heq, hcnt0, Nat.zero_add]
+              by_cases hok : (osd { s with engine := E1 } p0 ⟨.findNode, qi⟩ o).2 = true
+              · refine ite_le_ite_of_imp (fun _ => ?_)
+                have : p0 ∈ x1.st.pending := by rw [hst]; simp [QState.pending]
+                rcases hsup1 p0 this with hc | ⟨hc, _⟩
+                · exact hc
+                · exact absurd hok hc
+              · have : ¬ ((osd { s with engine := E1 } p0 ⟨.findNode, qi⟩ o).2 = true ∧ qi = qi ∧ p0 = p0) :=
+                  fun hc => hok hc.1
+                rw [if_neg this]
+                exact Nat.zero_le _
+            · have hno : ¬ ((osd { s with engine := E1 } p ⟨.findNode, qi⟩ o).2 = true ∧ qi = x.id ∧ p = p0) :=
+                fun hc => hp0 hc.2.2.symm
+              rw [if_neg hno, Nat.add_zero]
+              have hxx : x = ⟨qi, key, .lookup kind quorum ps⟩ := by
+                have := findQ_of_mem hL.idsNodup hx
+                rw [heq, hfq] at this
+                exact (Option.some.inj this).symm
+              have hone := h.one x hx (by rw [hxx]; rfl) p0
+              refine Nat.le_trans hone (ite_le_ite_of_imp ?_)
+              intro hp0'
+              have : p0 ∈ x1.st.pending := by
+                rw [hst]
+                rw [hxx] at hp0'
+                simp only [QState.pending] at hp0' ⊢
+                exact List.mem_append_left _ hp0'
+              rcases hsup1 p0 this with hc | ⟨_, _, hc⟩
+              · exact hc
+              · exact absurd hc hp0
+        · intro x' hx' hlk p0 hp0
+          rw [hfuts]
+          obtain ⟨x1, hx1, hid1, hl1, hsub1⟩ := hsh.sub x' hx'
+          obtain ⟨x, hx, hid, hst⟩ := hE1mem x1 hx1
+          rcases hst with ⟨_, hst⟩ | ⟨_, hst⟩
+          · rw [← hid1, hid]
+            exact h.noReq x hx (by rw [← hst, hl1, hlk]) p0 (hst ▸ hsub1 p0 hp0)
+          · rw [hst] at hl1
+            rw [hlk] at hl1
+            simp [QState.isLookup] at hl1
+    · exact absurd hstep (by simp)
+  | lookupDone q ok peers =>
+    simp only at hstep
+    split at hstep
+    · rename_i qi key kind quorum ps hfq
+      have fin : ∀ ok, LInv (emit { s with engine := removeQ s.engine q } q ok) := fun ok =>
+        h.subEngine (fun x hx => (List.mem_filter.mp hx).1) (Nat.le_refl _) rfl rfl rfl
+      split at hstep
+      · split at hstep
+        · exact absurd hstep (by simp)
+        · injection hstep with hstep; subst hstep; exact fin false
+      · split at hstep
+        · injection hstep with hstep; subst hstep; exact fin true
+        · injection hstep with hstep; subst hstep; exact fin true
+        · injection hstep with hstep; subst hstep; exact fin true
+        · split at hstep
+          · exact absurd hstep (by simp)
+          · rename_i hguard
+            injection hstep with hstep
+            subst hstep
+            have hx0 := findQ_mem hfq
+            have hqi : qi = q := hx0.2
+            subst hqi
+            have hqlt : (qi : Nat) < s.nextQid := hL.idsLt qi (List.mem_map.mpr ⟨_, hx0.1, rfl⟩)
+            generalize hk : (if kind = QKind.addProvider then AKind.addProvider else AKind.putValue) = k
+            generalize hR : fanOut k qi { s with engine := removeQ s.engine qi } peers outs = R
+            have hRe : R.1.engine = removeQ s.engine qi := by rw [← hR]; exact fanOut_engine ..
+            have hRf : R.1.futs = s.futs := by rw [← hR]; exact fanOut_futs ..
+            have hRn : R.1.nextQid = s.nextQid := by
+              rw [← hR]
+              exact (fanOut_same k qi { s with engine := removeQ s.engine qi } peers outs s ⟨rfl, rfl, rfl, rfl, rfl⟩).nextQid
+            have hRc : ∀ q' p', qi ≠ q' → cnt R.1 q' p' = cnt s q' p' := by
+              intro q' p' hne
+              rw [← hR, cnt_fanOut_ne k qi _ peers outs q' p' hne]
+              rfl
+            have hsh : ShrT (fun _ _ => False)
+                (R.1.engine ++ [⟨qi, key, .tracker (kind != .addProvider) (Tracker.new peers quorum)⟩])
+                (startTracking R qi key (kind != .addProvider) peers quorum).engine := by
+              unfold startTracking
+              simp only []
+              exact ShrT.foldl _ _ (fun p _ e => .sendFail qi p (.refl e)) _
+            have hcnt' : ∀ q' p', cnt (startTracking R qi key (kind != .addProvider) peers quorum) q' p' = cnt R.1 q' p' :=
+              fun _ _ => rfl
+            refine ⟨?_, ?_, ?_⟩
+            · intro q' p' hq'
+              have hq'' : s.nextQid ≤ q' := by
+                have : (startTracking R qi key (kind != .addProvider) peers quorum).nextQid = R.1.nextQid := rfl
+                omega
+              rw [hcnt', hRc q' p' (fun hc => by subst hc; exact Nat.lt_irrefl _ (Nat.lt_of_lt_of_le hqlt hq''))]
+              exact h.fresh q' p' hq''
+            · intro x' hx' hlk p0
+              obtain ⟨x1, hx1, hid1, hl1, _, hsup1⟩ := hsh.lookups x' hx' hlk
+              rcases List.mem_append.mp hx1 with hx1 | hx1
+              · rw [hRe] at hx1
+                have hm := List.mem_filter.mp hx1
+                have hne : qi ≠ x1.id := by
+                  intro hc
+                  have := hm.2
+                  simp [hc] at this
+                rw [hcnt', ← hid1, hRc _ _ hne]
+                refine Nat.le_trans (h.one x1 hm.1 hl1 p0) (ite_le_ite_of_imp ?_)
+                intro hp0
+                rcases hsup1 p0 hp0 with hc | hc
+                · exact hc
+                · exact hc.elim
+              · simp only [List.mem_singleton] at hx1
+                subst hx1
+                simp [QState.isLookup] at hl1
+            · intro x' hx' hlk p0 hp0
+              show _ ∉ R.1.futs
+              rw [hRf]
+              obtain ⟨x1, hx1, hid1, hl1, hsub1⟩ := hsh.sub x' hx'
+              rcases List.mem_append.mp hx1 with hx1 | hx1
+              · rw [hRe] at hx1
+                rw [← hid1]
+                exact h.noReq x1 (List.mem_filter.mp hx1).1 (hl1.trans hlk) p0 (hsub1 p0 hp0)
+              · simp only [List.mem_singleton] at hx1
+                subst hx1
+                have hp0' : p0 ∈ peers := List.mem_eraseDups.mp (hsub1 p0 hp0)
+                have hnps : p0 ∉ ps := by
+                  intro hc
+                  apply hguard
+                  exact List.any_eq_true.mpr ⟨p0, hp0', by simpa using hc⟩
+                have hc0 : cnt s qi p0 = 0 := by
+                  have := h.one _ hx0.1 rfl p0
+                  simp [QState.pending, hnps] at this
+                  omega
+                rw [← hid1]
+                exact not_mem_futs_of_cnt hc0 _
+    · exact absurd hstep (by simp)
+  | partialResult q =>
+    simp only at hstep
+    split at hstep
+    · injection hstep with hstep; subst hstep; exact h
+    · exact absurd hstep (by simp)
+  | trackerDone q =>
+    simp only at hstep
+    split at hstep
+    · split at hstep
+      · split at hstep
+        · injection hstep with hstep
+          subst hstep
+          exact h.subEngine (fun x hx => (List.mem_filter.mp hx).1) (Nat.le_refl _) rfl rfl rfl
+        · injection hstep with hstep
+          subst hstep
+          exact h.subEngine (fun x hx => (List.mem_filter.mp hx).1) (Nat.le_refl _) rfl rfl rfl
+      · exact absurd hstep (by simp)
+    · exact absurd hstep (by simp)
+
+theorem LInv.step {s s' : State} (h : LInv s) (hL : Ledger s) {l : Label} (hstep : step s l = some s') : LInv s' := by
+  cases l with
+  | cmd c => injection hstep with hstep; subst hstep; exact h.command c
+  | engine a outs => exact h.engineStep hL hstep
+  | established p outs => injection hstep with hstep; subst hstep; exact h.established p outs
+  | closed p => injection hstep with hstep; subst hstep; exact h.closed p
+  | dialFailure p => injection hstep with hstep; subst hstep; exact h.dialFailure p
+  | subOpened sid => injection hstep with hstep; subst hstep; exact h.subOpened hL.idsNodup sid
+  | subOpenFailure sid => injection hstep with hstep; subst hstep; exact h.subOpenFailure sid
+  | result f r => injection hstep with hstep; subst hstep; exact h.execResult f r
+
+theorem LInv.reachable {s : State} (h : Reachable s) : LInv s := by
+  induction h with
+  | init => exact LInv.init
+  | step l hr hstep ih => exact ih.step (Ledger.reachable hr) hstep
 
 end Litep2pVerif.Kad.Coordinator
